@@ -87,6 +87,9 @@ class Model:
         self.events, self.calls, self.explicit = [], [], {}
         self.inline_skip = set()
         self.scanning = False
+        self.entries = {}
+        self.stopped_in = {}
+        self.glob['hasattr'] = lambda o, n: ((n in o.__dict__) or (o.__dict__.get('_getattr') is not None and o.__dict__['_getattr'](n) is not OPQ)) if isinstance(o, NS) else OPQ
 
     # ------------------------------------------------------------------ plumbing
     def fn(self, name):
@@ -171,6 +174,8 @@ class Model:
         f = call.func
         if isinstance(f, ast.Attribute) and f.attr in ('lookup_here', 'lookup') and len(call.args) == 1:
             name = interp.eval(call.args[0], env)
+            if isinstance(name, str) and name in self.entries:
+                return self.entries[name]
             if isinstance(name, str) and name in self.explicit:
                 return NS('entry ' + name, is_special=True) if self.explicit[name] else None
             return OPQ
@@ -222,6 +227,7 @@ class Model:
 
     def on_stop(self, interp, closure, st):
         """Tail of a function the evaluator cannot decide: record what it may emit (flow-insensitively)."""
+        self.stopped_in[getattr(closure.fn, 'name', '?')] = st.why
         self.scanning = True
         try:
             for s in st.rest:
@@ -242,6 +248,7 @@ class Model:
     def run(self, fdef, args, kwargs=None, explicit=None, inline_skip=()):
         self.events, self.calls, self.explicit = [], [], dict(explicit or {})
         self.inline_skip = set(inline_skip)
+        self.stopped_in = {}
         it = self.interp()
         try:
             it.call_closure(Closure(fdef, Env(None, it.globals)), args, kwargs or {})
@@ -309,19 +316,23 @@ def analyse_handle(model):
     for c in calls:
         fdef = c['fn']
         pos = [a.arg for a in fdef.args.posonlyargs + fdef.args.args]
-        roles, values = {}, {}
+        roles, values, argnames = {}, {}, {}
         for i, a in enumerate(c['call'].args):
             if i < len(pos):
                 values[pos[i]] = c['args'][i]
                 if role_of(a):
                     roles[pos[i]] = role_of(a)
+                if isinstance(a, ast.Name):
+                    argnames[pos[i]] = a.id
         for k in c['call'].keywords:
             if k.arg:
                 values[k.arg] = c['kwargs'].get(k.arg, OPQ)
                 if role_of(k.value):
                     roles[k.arg] = role_of(k.value)
+                if isinstance(k.value, ast.Name):
+                    argnames[k.arg] = k.value.id
         if any(isinstance(a, ast.Subscript) and role_of(a) for a in list(c['call'].args) + [k.value for k in c['call'].keywords]):
-            gens.append(dict(fn=fdef, roles=roles, values=values, line=c['call'].lineno))
+            gens.append(dict(fn=fdef, roles=roles, values=values, argnames=argnames, line=c['call'].lineno))
     helper_calls = []
     for c in calls:
         vals = list(c['args']) + list(c['kwargs'].values())
@@ -359,7 +370,7 @@ def analyse_handle(model):
 
 # ======================================================================================= OPT
 def rule_OPT(model, info):
-    r = Rule('C30-OPT', 'options of cython.dataclasses.dataclass: names/defaults vs inspect.signature(dataclasses.dataclass); keywords passed to _DataclassParams', floor=24)
+    r = Rule('C30-OPT', 'options of cython.dataclasses.dataclass: names/defaults vs inspect.signature(dataclasses.dataclass); keywords passed to _DataclassParams', floor=16)
     fn = info['fn']
     ref = inspect.signature(dataclasses.dataclass).parameters
     for k, v in sorted(info['options'].items()):
@@ -736,6 +747,7 @@ def rules_GEN(model, info):
         if not methods:
             raise AnalysisError('Dataclass.%s: no generated method/attribute found in its code' % fdef.name)
         is_hash = methods == {'__hash__'} and {'unsafe_hash', 'eq', 'frozen'} <= set(role_names)
+        g['methods'], g['gen_rv'] = sorted(methods), {}
         for method in sorted(methods):
             for combo in itertools.product((False, True), repeat=len(role_names)):
                 rv = dict(defaults)
@@ -751,6 +763,9 @@ def rules_GEN(model, info):
                             rg.violate(key, model.rel, getattr(e.node, 'lineno', fdef.lineno), 'Dataclass.%s raises %s for @dataclass(%s)' % (fdef.name, e.what, ', '.join('%s=%s' % x for x in zip(role_names, combo))))
                         continue
                     got = outcome(events, method)
+                    flips = sum(1 for n in role_names if rv[n] != defaults[n])
+                    if got == 'gen' and not explicit and (method not in g['gen_rv'] or flips < g['gen_rv'][method][1]):
+                        g['gen_rv'][method] = (dict(rv), flips)
                     cell = ', '.join('%s=%s' % (n, v) for n, v in zip(role_names, combo))
                     word = {'gen': 'generates %s' % method, 'skip': 'leaves %s alone' % method, 'none': 'sets %s = None' % method, 'error': 'rejects the class with an error'}
                     if is_hash:
@@ -788,6 +803,296 @@ def rules_GEN(model, info):
     return [rg, rh, rc]
 
 
+# ======================================================================================= BODY — generated code evaluated
+class TextRecorder:
+    """Stand-in for TemplateCode/PyxCodeWriter that keeps the emitted source text with its indentation."""
+    def __init__(self, model):
+        self.lines, self.level, self.model = [], 0, model
+        self.opaque = False
+
+    def _put(self, s):
+        if isinstance(s, PStr) or s is OPQ:
+            self.opaque = True
+            s = (s.prefix if isinstance(s, PStr) else '') + ' <?>'
+        self.lines.append('    ' * self.level + str(s))
+
+    def mock(self):
+        import textwrap
+        rec = self
+
+        def add_code_line(s='', *a):
+            rec._put(s)
+
+        def add_code_chunk(s='', *a):
+            if isinstance(s, str):
+                for line in textwrap.dedent(s).strip('\n').split('\n'):
+                    rec.lines.append(('    ' * rec.level + line) if line.strip() else '')
+            else:
+                rec._put(s)
+
+        def indenter(s='', *a):
+            rec._put(s)
+
+            def enter():
+                rec.level += 1
+
+            def leave():
+                rec.level -= 1
+            return NS('indenter', _enter=enter, _exit=leave)
+
+        def indent():
+            rec.level += 1
+
+        def dedent():
+            rec.level -= 1
+        ns = NS('code', add_code_line=add_code_line, add_code_chunk=add_code_chunk, indenter=indenter, indent=indent, dedent=dedent,
+                putln=add_code_line, put_chunk=add_code_chunk, _ctor='TemplateCode')
+        ns.insertion_point = lambda: ns
+        ns.add_extra_statements = lambda stats: None
+        return ns
+
+    def text(self):
+        return '\n'.join(self.lines)
+
+
+def python_of(text, what):
+    """Generated Cython source -> Python AST (cdef declarations dropped, <T> casts removed)."""
+    out = []
+    for line in text.split('\n'):
+        if re.match(r'^\s*cdef\s', line):
+            continue
+        out.append(re.sub(r'<\s*[\w.]+\s*>(?=\s*[\w(])', '', line))
+    try:
+        return ast.parse('\n'.join(out))
+    except SyntaxError as e:
+        raise AnalysisError('code generated by %s is not parsable as Python after dropping cdef lines/casts: %s' % (what, e))
+
+
+def make_field(model, flags):
+    """A Field as process_class_get_fields builds it: Field(pos, **keyword nodes), then is_initvar."""
+    cls = model.m.classes['Field']
+    init = cls.methods['__init__']
+    obj = NS('Field', _ctor='Field', _cls=cls, _getattr=model.class_getattr(cls))
+    kw = {}
+    for k in ('init', 'repr', 'compare', 'hash'):
+        if flags.get(k) is not None:
+            kw[k] = model.mock_node('Compiler.ExprNodes', 'BoolNode', value=flags[k])
+    if flags.get('default') is not None:
+        kw['default'] = model.mock_node('Compiler.ExprNodes', 'IntNode', value=str(flags['default']))
+    it = MiniPy(model.glob, hook=model.hook)
+    try:
+        it.call_closure(Closure(init, Env(None, it.globals)), [obj, OPQ], kw)
+    except Stopped:
+        pass
+    except Unsupported as e:
+        raise AnalysisError('Field.__init__ cannot be evaluated: %s' % e)
+    obj.__dict__['is_initvar'] = bool(flags.get('initvar'))
+    obj.__dict__['is_classvar'] = False
+    return obj
+
+
+def std_class(fields, **opts):
+    specs = []
+    for name, fl in fields:
+        kw = {k: fl[k] for k in ('init', 'repr', 'compare', 'hash') if fl.get(k) is not None}
+        if fl.get('default') is not None:
+            kw['default'] = fl['default']
+        specs.append((name, dataclasses.InitVar[int] if fl.get('initvar') else int, dataclasses.field(**kw)))
+    return dataclasses.make_dataclass('K', specs, **opts)
+
+
+def emit_body(model, g, method, fields_cfg, caller_names):
+    """Run generator g (options set so that `method` is generated) on concrete fields -> emitted source text."""
+    fdef = g['fn']
+    if method not in g['gen_rv']:
+        raise AnalysisError('Dataclass.%s: no option combination generates %s' % (fdef.name, method))
+    rv = g['gen_rv'][method][0]
+    pos = [a.arg for a in fdef.args.posonlyargs + fdef.args.args]
+    kwo = [a.arg for a in fdef.args.kwonlyargs]
+    inv = {v: k for k, v in g['argnames'].items()}
+    fields_param, node_param = inv.get(caller_names['fields']), inv.get(caller_names['node'])
+    if fields_param is None or node_param is None:
+        raise AnalysisError('Dataclass.%s: cannot tell which parameters are the field dict and the class node' % fdef.name)
+    rec = TextRecorder(model)
+    fields = {name: make_field(model, fl) for name, fl in fields_cfg}
+    node = NS('node', class_name='K', scope=NS('scope'))
+
+    def val(p):
+        if p in g['roles']:
+            return rv[g['roles'][p]]
+        if p == fields_param:
+            return fields
+        if p == node_param:
+            return node
+        v = g['values'].get(p, OPQ)
+        if isinstance(v, NS) and v.__dict__.get('_ctor') == 'TemplateCode':
+            return rec.mock()
+        return 'CS_PLACEHOLDER'
+    args = [val(p) for p in pos]
+    kwargs = {p: val(p) for p in kwo}
+    model.entries = {name: NS('entry ' + name, type=NS('type', is_memoryviewslice=False, is_pyobject=False, is_gc_simple=True), annotation=None) for name, _ in fields_cfg}
+    try:
+        events, _ = model.run(fdef, args, kwargs, explicit={mm: False for mm in ('__init__', '__repr__', '__eq__', '__lt__', '__le__', '__gt__', '__ge__', '__hash__', '__match_args__', '__post_init__')})
+    finally:
+        model.entries = {}
+    if model.stopped_in.get(fdef.name):
+        raise AnalysisError('Dataclass.%s cannot be evaluated on concrete fields: %s' % (fdef.name, model.stopped_in[fdef.name]))
+    if rec.opaque:
+        raise AnalysisError('Dataclass.%s emits text the checker cannot determine: %r' % (fdef.name, [l for l in rec.lines if '<?>' in l][:2]))
+    return rec.text()
+
+
+def run_generated(tree, name, args, extra_globals=None):
+    g = {'NotImplemented': NotImplemented, 'CS_PLACEHOLDER': lambda *a: NS('cs'), 'getattr': _safe_getattr,
+         'type': lambda o: NS('type', __qualname__='K', __name__='K'), 'hash': lambda t: ('HASH', t), 'id': lambda o: id(o)}
+    g.update(extra_globals or {})
+    try:
+        cached = getattr(tree, '_c30_loaded', None)
+        if cached is None:
+            it = MiniPy(g, max_steps=10 ** 7)
+            env = Env(None, it.globals)
+            it.exec_block(tree.body, env)
+            tree._c30_loaded = cached = (it, env)
+        it, env = cached
+        f = env.get(name)
+        if not isinstance(f, Closure):
+            return ('MISSING',)
+        return it.call_closure(f, args, {})
+    except Stopped as s:
+        raise AnalysisError('generated %s cannot be evaluated: %s' % (name, s.why))
+    except Unsupported as e:
+        raise AnalysisError('generated %s cannot be evaluated: %s' % (name, e))
+
+
+def rule_BODY(model, info):
+    r = Rule('C30-BODY', 'generated __match_args__/__hash__/__repr__/__eq__/ordering code, evaluated for small field lists, agrees with the stdlib dataclass built from the same field options', floor=150)
+    emitter = {}
+    for g in info['gens']:
+        for mm in g.get('methods', []):
+            emitter.setdefault(mm, g)
+    need = ['__match_args__', '__hash__', '__repr__', '__eq__', '__lt__', '__le__', '__gt__', '__ge__']
+    for mm in need:
+        if mm not in emitter:
+            raise AnalysisError('no generate_* call of handle_cclass_dataclass produces %s' % mm)
+    seen = {}
+
+    def bad(key, line, msg):
+        seen.setdefault(key, (line, msg))
+    # which local of handle_cclass_dataclass is the field dict / the class node: decided by how the generators use the parameter it is bound to
+    caller_names = {}
+    for g in info['gens']:
+        fdef = g['fn']
+        for n in ast.walk(fdef):
+            if isinstance(n, ast.Attribute) and isinstance(n.value, ast.Name) and n.value.id in g['argnames']:
+                if n.attr in ('items', 'keys', 'values'):
+                    caller_names.setdefault('fields', g['argnames'][n.value.id])
+                if n.attr == 'scope':
+                    caller_names.setdefault('node', g['argnames'][n.value.id])
+    if set(caller_names) != {'fields', 'node'}:
+        raise AnalysisError('handle_cclass_dataclass: cannot tell which locals are the field dict and the class node')
+    # ---- __match_args__
+    cfg = [('a', {}), ('b', {'init': False, 'default': 0}), ('c', {'initvar': True, 'default': 5}), ('d', {'repr': False, 'compare': False, 'default': 1})]
+    g = emitter['__match_args__']
+    text = emit_body(model, g, '__match_args__', cfg, caller_names)
+    tree = python_of(text, g['fn'].name)
+    got = None
+    for st in tree.body:
+        if isinstance(st, ast.Assign) and isinstance(st.targets[0], ast.Name) and st.targets[0].id == '__match_args__':
+            got = tables.literal(st.value)
+    want = std_class(cfg).__match_args__
+    for name, fl in cfg:
+        key = 'Dataclass.%s:%s' % (g['fn'].name, 'init=False' if fl.get('init') is False else 'initvar' if fl.get('initvar') else 'plain' if not fl else 'other')
+        r.inst(key + ':' + name, sample='__match_args__ member %s: cython %s / stdlib %s' % (name, name in (got or ()), name in want))
+        if got is None:
+            bad('Dataclass.%s:text' % g['fn'].name, g['fn'].lineno, 'no `__match_args__ = (...)` assignment is generated (%r)' % text[:80])
+        elif (name in got) != (name in want):
+            bad(key, g['fn'].lineno, '__match_args__ of a cdef dataclass %s the %s field %r (fields a; b=field(init=False); c: InitVar; d=field(repr=False, compare=False) give %r), the stdlib dataclass gives %r: '
+                'positional class patterns `case K(x, y)` bind different attributes' % ('contains' if name in got else 'lacks', key.rsplit(':', 1)[1], name, got, want))
+    if got is not None and [n for n in got if n in want] != [n for n in want if n in got]:
+        bad('Dataclass.%s:order' % g['fn'].name, g['fn'].lineno, '__match_args__ order %r differs from the stdlib\'s %r' % (got, want))
+    # ---- __hash__ : which fields take part
+    cfg = [('a', {}), ('b', {'compare': False}), ('c', {'hash': False}), ('d', {'hash': True, 'compare': False}), ('e', {'hash': True})]
+    g = emitter['__hash__']
+    text = emit_body(model, g, '__hash__', cfg, caller_names)
+    tree = python_of(text, g['fn'].name)
+    vals = {name: 100 + i for i, (name, _) in enumerate(cfg)}
+    res = run_generated(tree, '__hash__', [NS('self', **vals)])
+    if not (isinstance(res, tuple) and len(res) == 2 and res[0] == 'HASH' and isinstance(res[1], tuple)):
+        raise AnalysisError('generated __hash__ does not return hash(<tuple>): %r' % (res,))
+    K = std_class(cfg, unsafe_hash=True)
+    base = [0] * len(cfg)
+    for i, (name, fl) in enumerate(cfg):
+        other = list(base)
+        other[i] = 1
+        in_std = hash(K(*base)) != hash(K(*other))
+        in_cy = vals[name] in res[1]
+        desc = ', '.join('%s=%r' % kv for kv in sorted(fl.items())) or 'default options'
+        key = 'Dataclass.%s:field(%s)' % (g['fn'].name, desc)
+        r.inst(key, sample='hash uses field(%s): cython %s / stdlib %s' % (desc, in_cy, in_std))
+        if in_cy != in_std:
+            bad(key, g['fn'].lineno, 'the generated __hash__ %s a field declared with field(%s); the stdlib dataclass %s it (rule: `compare if hash is None else hash`)%s' % (
+                'includes' if in_cy else 'omits', desc, 'includes' if in_std else 'omits',
+                ': instances that compare equal hash differently' if (in_cy and fl.get('compare') is False) else ''))
+    order_cy = [n for n in (k for v in res[1] for k, vv in vals.items() if vv == v)]
+    if order_cy != [n for n, _ in cfg if n in order_cy]:
+        bad('Dataclass.%s:order' % g['fn'].name, g['fn'].lineno, 'the generated __hash__ hashes the fields in the order %r, not in definition order' % order_cy)
+    # ---- __repr__
+    cfg = [('a', {}), ('b', {'repr': False}), ('c', {'compare': False})]
+    g = emitter['__repr__']
+    text = emit_body(model, g, '__repr__', cfg, caller_names)
+    tree = python_of(text, g['fn'].name)
+    K = std_class(cfg)
+    for values in ((1, 2, 3), (0, -5, 7)):
+        res = run_generated(tree, '__repr__', [NS('self', **dict(zip([n for n, _ in cfg], values)))])
+        want = repr(K(*values))
+        key = 'Dataclass.%s:text' % g['fn'].name
+        r.inst(key + ':%r' % (values,), sample='repr %r' % (res,))
+        if res != want:
+            bad(key, g['fn'].lineno, 'the generated __repr__ of K(a, b=field(repr=False), c=field(compare=False)) gives %r for %r, the stdlib dataclass gives %r' % (res, values, want))
+    # ---- __eq__ and ordering
+    cfgs = [[('a', {}), ('b', {})], [('a', {'compare': False}), ('b', {})], [('a', {}), ('b', {'compare': False}), ('c', {})], []]
+    ops = {'__eq__': lambda x, y: x == y, '__lt__': lambda x, y: x < y, '__le__': lambda x, y: x <= y, '__gt__': lambda x, y: x > y, '__ge__': lambda x, y: x >= y}
+    for cfg in cfgs:
+        names = [n for n, _ in cfg]
+        K = std_class(cfg, order=True)
+        trees = {}
+        for method in ops:
+            g = emitter[method]
+            if id(g) not in trees:
+                trees[id(g)] = python_of(emit_body(model, g, method, cfg, caller_names), g['fn'].name)
+        grid = list(itertools.product((0, 1), repeat=len(names)))
+        for method, pyop in ops.items():
+            g = emitter[method]
+            tree = trees[id(g)]
+            desc = ', '.join('%s%s' % (n, '(compare=False)' if fl.get('compare') is False else '') for n, fl in cfg) or 'no fields'
+            key = 'Dataclass.%s:%s' % (g['fn'].name, method)
+            for v1 in grid:
+                for v2 in grid:
+                    cls_token = NS('class K')
+                    a = NS('self', **dict(zip(names, v1), **{'__class__': cls_token}))
+                    b = NS('other', **dict(zip(names, v2), **{'__class__': cls_token}))
+                    res = run_generated(tree, method, [a, b])
+                    want = pyop(K(*v1), K(*v2))
+                    r.inst('%s:[%s]:%r%r' % (key, desc, v1, v2))
+                    if res is not want:
+                        bad(key, g['fn'].lineno, 'the generated %s for fields [%s] returns %r for K%r vs K%r, the stdlib dataclass (tuple comparison of the compare=True fields) gives %r' % (method, desc, res, v1, v2, want))
+            # operand of another class -> NotImplemented
+            a = NS('self', **dict(zip(names, grid[0]), **{'__class__': NS('class K')}))
+            b = NS('other', **dict(zip(names, grid[0]), **{'__class__': NS('class L')}))
+            res = run_generated(tree, method, [a, b])
+            r.inst('%s:[%s]:other-class' % (key, desc))
+            if res is not NotImplemented:
+                bad(key + ':other-class', g['fn'].lineno, 'the generated %s returns %r for an operand of a different class; the stdlib dataclass returns NotImplemented' % (method, res))
+    for key, (line, msg) in sorted(seen.items()):
+        r.violate(key, model.rel, line, msg)
+    # positive control: a wrong comparison body is noticed by the same evaluation
+    ctl = ast.parse("def __lt__(self, other):\n    if other.__class__ is not self.__class__: return NotImplemented\n    if self.a < other.a: return True\n    return True\n")
+    a = NS('self', a=1, **{'__class__': 1})
+    r.positive_control(run_generated(ctl, '__lt__', [a, NS('o', a=0, **{'__class__': 1})]) is True and run_generated(ctl, '__lt__', [a, NS('o', a=0, **{'__class__': 2})]) is NotImplemented,
+                       'evaluation of a generated comparison distinguishes results')
+    return r
+
+
 def rule_V1(ctx, model):
     cls = model.m.classes.get('RemoveAssignmentsToNames')
     if cls is None:
@@ -808,4 +1113,4 @@ def run(ctx):
         r.violate('Dataclass.handle_cclass_dataclass:crash', model.rel, getattr(e.node, 'lineno', 1),
                   'handle_cclass_dataclass raises %s for every cdef dataclass (line %s: %s)' % (e.what, getattr(e.node, 'lineno', '?'), node_src(e.node, 80) if e.node is not None else ''))
         return [r, rule_FLD(model), rule_V1(ctx, model)]
-    return [rule_OPT(model, info), rule_FLD(model)] + rules_GEN(model, info) + [rule_V1(ctx, model)]
+    return [rule_OPT(model, info), rule_FLD(model)] + rules_GEN(model, info) + [rule_BODY(model, info), rule_V1(ctx, model)]
